@@ -205,6 +205,29 @@ class ParProp(props.BaseProp):
             c = self.gen_graph(r, i, big=(n > 200 and i % 10 == 9), neg=(rneg if i % 8 == 3 else None))
             c["id"] = "p%d" % len(cases)
             cases.append(c)
+        # far above every batch / chunk size a parallel arm could use (512, 1024): sparse graphs of 513-1300 nodes,
+        # the two centralities only (all_pairs with paths would dominate the run), pools 1 / 3 / 16
+        rh = gv.SplitMix(seed * 32452843 + 7)
+        for k in range(1 if n <= 200 else 6):
+            nn = rh.pick([513, 600, 1025, 1300]) if k else 700
+            names = rh.shuffle(list(range(nn)))
+            directed = rh.chance(1, 2)
+            es, seen = [], set()
+            for i in range(1, nn):
+                es.append((names[rh.below(i)], names[i]))
+            for _ in range(nn // 2):
+                u, v = rh.below(nn), rh.below(nn)
+                if u != v:
+                    es.append((u, v))
+            out = []
+            for (u, v) in es:
+                key = (u, v) if directed else (min(u, v), max(u, v))
+                if key not in seen:
+                    seen.add(key)
+                    out.append((u, v, bits(0.1 * (1 + rh.below(30)))))
+            cases.append({"kind": "graph", "directed": directed, "n": nn, "names": names, "edges": out, "wmode": "decimal",
+                          "pools": [1, 3, 16], "id": "p%d" % len(cases),
+                          "calls": ["betweenness 0 1", "betweenness 1 0", "closeness 0 1", "closeness 1 1"]})
         while len(cases) < n:
             m = r.pick([0, 1, 2, 21, 22, 25, 33, 64, 100, 150]) if r.chance(1, 2) else 21 + r.below(140)
             c = {"kind": "probe", "pool": r.pick(POOLS), "xs": [r.below(2001) - 1000 for _ in range(m)]}
